@@ -67,7 +67,7 @@ def streams(tier, rng):
                 for sign in (0, 1):
                     for ln in (rng.sample(lens, 3) + [rng.randrange(0, 71)]):
                         cases.append('I2S %d %d %d %d %d %d' % (w, (v >> 32) & 0xffffffff, v & 0xffffffff, ln, base, sign))
-    yield {'name': 'int2str', 'cases': cases, 'oracle': oracle,
+    yield {'name': 'int2str', 'coqcheck': True, 'cases': cases, 'oracle': oracle,
            'nontrivial': lambda c, o: c if len(o.split()) == 4 and len(o.split()[1]) >= 4 else None}
     # sweep inside the driver against libc
     if tier == 'quick':
